@@ -1,16 +1,29 @@
 """C02 Likelihood is invariant to how the same tree and data are written down.
 
-Relational (two-run) symbolic execution: the real TreeLikelihoodModel is built from
-two equivalent JSON specifications and both are evaluated on the SAME symbolic
+Relational (multi-run) symbolic execution: the real TreeLikelihoodModel is built from
+equivalent JSON specifications and all are evaluated on the SAME symbolic
 parameters (a branch length / node height is identified by the set of taxa below
 it, resp. by its bipartition); the solver decides L1 == L2 for all values.
 Rewrites: permutations of the taxa list and of the sequence list, child swaps,
 column permutations, merging identical columns into weighted patterns, tip states
 vs tip partials with ambiguous symbols as missing, and (JC69, closed form) moving
 the root of an unrooted tree to any other branch.
+
+Region widened in the M02 round:
+ * alphabet of the written data: soft-masked (lower-case) symbols, RNA U/u, lower-case ambiguity codes, ? - N X and
+   characters outside the alphabet, for the nucleotide, amino-acid and general data types; in addition to the rewrites
+   above the same data are written in canonical spelling according to an INDEPENDENT symbol table (the IUPAC / amino-acid
+   tables of chk/c01_k3_harness.py, resp. the data-type JSON itself for GeneralDataType) and must give the same value;
+ * evaluation path: every rewrite is also decided with `rescale = True` on both sides and mixed (one side rescaled, the
+   other plain); which entry is the per-node per-site maximum is a path condition, the divisions by the scalers are hoisted
+   out of every log argument (log(N / D) -> log N - log D, sound for non-zero scalers) before the query;
+ * sharing: one SitePattern / Alignment / tree / substitution / site model referenced by id from two likelihoods with
+   different flags, built in both orders, against the same likelihood built alone from an inline specification;
+ * keep_branch_lengths: every root shape x which root branch is the longer one, root trifurcations, n = 3, 4.
 """
 from __future__ import annotations
 
+import copy
 import itertools
 import math
 import sys
@@ -18,7 +31,7 @@ import sys
 import torch
 
 import common as cm
-from symtorch import SymTensor, cur, from_ids, new_vars, tracing
+from symtorch import cur, from_ids, tracing
 from symtorch.axioms import ground_axioms
 from vlib.core import main_for, pmap
 
@@ -28,9 +41,81 @@ SEQS = {
     4: {'t0': 'ACRAG', 't1': 'CGYCT', 't2': 'GT-GA', 't3': 'TANTC'},
 }
 
+# ------------------------------------------------------------------ alphabets of the written data
+# one string per alignment column, character i = taxon t{i} (n = 3 uses the first three rows)
+GENERAL_DT = {'id': 'dt', 'type': 'GeneralDataType', 'codes': ['a', 'b', 'c', 'd'],
+              'ambiguities': {'e': 'a', 'f': ['b'], 'x': ['a', 'b', 'c', 'd']}}
+GENERAL_AMB_DT = {'id': 'dt', 'type': 'GeneralDataType', 'codes': ['a', 'b', 'c', 'd'],
+                  'ambiguities': {'e': 'a', 'f': ['b'], 'x': ['a', 'b', 'c', 'd'], 'r': ['a', 'c']}}
+ALPHA = {
+    # upper case | soft-masked copy of column 0 | RNA | ambiguity codes in both cases + gap | N ? X | outside the alphabet |
+    # exact repeat of column 0 (weight 2) | lower/upper mix
+    'nucleotide': {'datatype': 'nucleotide', 'S': 4,
+                   'columns': ['ACGT', 'acgt', 'uUTt', 'Ry-k', 'N?xn', '.A*9', 'ACGT', 'gTcA']},
+    # upper | lower | B Z X (either case) | * ? - | letters that are no amino acid (J O U) | mix | outside | repeat
+    'aminoacid': {'datatype': {'id': 'dt', 'type': 'AminoAcidDataType'}, 'S': 20,
+                  'columns': ['ARND', 'arnd', 'BzXb', '*?-J', 'JoUu', 'wYvK', '.K1!', 'ARND']},
+    # codes | aliases (string and one-element list) | all-state code, unknown symbols, upper case of a code | mix | repeat
+    'general': {'datatype': GENERAL_DT, 'S': 4, 'columns': ['abcd', 'efcd', 'x?-A', 'bdac', 'abcd', 'Bfe.']},
+    # the same plus a code that stands for two states
+    'general+ambiguity': {'datatype': GENERAL_AMB_DT, 'S': 4, 'columns': ['abcd', 'efcd', 'x?-A', 'bdac', 'abcd', 'Bfe.', 'rcra']},
+}
+
+
+def sym_set(alpha, c):
+    """the states a written symbol stands for, from tables that are independent of torchtree's"""
+    if alpha == 'nucleotide':
+        from chk import c01_k3_harness as K3
+
+        return tuple(K3.nuc_set(ord(c)))
+    if alpha == 'aminoacid':
+        from chk import c01_k3_harness as K3
+
+        return tuple(K3.aa_set(ord(c)))
+    dt = ALPHA[alpha]['datatype']
+    codes = dt['codes']
+    if c in codes:
+        return (c,)
+    amb = dt['ambiguities'].get(c)
+    if amb is None:
+        return tuple(codes)
+    return (amb,) if isinstance(amb, str) else tuple(x for x in codes if x in amb)
+
+
+def canonical(alpha, c, how):
+    """canonical spelling of a symbol: the state letter itself; a symbol standing for several states becomes the gap
+    (how = 'missing') or the upper-case code of the reference table for exactly that set (how = 'code')"""
+    s = sym_set(alpha, c)
+    if len(s) == 1:
+        return s[0]
+    if how == 'missing' or len(s) == ALPHA[alpha]['S']:
+        return '-'
+    if alpha == 'nucleotide':
+        from chk import c01_k3_harness as K3
+
+        return next(k for k, v in K3.IUPAC if tuple(v) == s)
+    if alpha == 'aminoacid':
+        from chk import c01_k3_harness as K3
+
+        return next(chr(k) for k, v in K3.AA_AMBIG_ORD if tuple(v) == s)
+    return next(k for k, v in ALPHA[alpha]['datatype']['ambiguities'].items() if isinstance(v, list) and tuple(v) == s)
+
+
+def alpha_seqs(alpha, n, canon=None):
+    cols = ALPHA[alpha]['columns']
+    out = {}
+    for i in range(n):
+        s = ''.join(c[i] for c in cols)
+        if canon:
+            s = ''.join(canonical(alpha, ch, canon) for ch in s)
+        out[f't{i}'] = s
+    return out
+
 
 def register():
     import torchtree.evolution.tree_likelihood  # noqa
+    import torchtree.evolution.datatype  # noqa
+    import torchtree.evolution.substitution_model.general  # noqa
 
 
 # ------------------------------------------------------------------ specification builder
@@ -43,10 +128,13 @@ def newick(t):
     return rec(t) + ';'
 
 
-def spec(n, topology, kind, taxa_order=None, seq_order=None, columns=None, tip_states=False, use_amb=True, subst='stub'):
+def spec(n, topology, kind, taxa_order=None, seq_order=None, columns=None, tip_states=False, use_amb=True, subst='stub',
+         alpha=None, canon=None):
     taxa_order = list(taxa_order) if taxa_order is not None else list(range(n))
     seq_order = list(seq_order) if seq_order is not None else list(range(n))
-    seqs = SEQS[n]
+    seqs = alpha_seqs(alpha, n, canon) if alpha else SEQS[n]
+    S = ALPHA[alpha]['S'] if alpha else 4
+    datatype = copy.deepcopy(ALPHA[alpha]['datatype']) if alpha else 'nucleotide'
     ncol = len(seqs['t0'])
     columns = list(columns) if columns is not None else list(range(ncol))
     taxa = {'id': 'taxa', 'type': 'Taxa',
@@ -57,15 +145,21 @@ def spec(n, topology, kind, taxa_order=None, seq_order=None, columns=None, tip_s
     else:
         tree = {'id': 'tree', 'type': 'TimeTreeModel', 'newick': newick(topology), 'taxa': taxa,
                 'internal_heights': {'id': 'heights', 'type': 'Parameter', 'tensor': [1.0 + i for i in range(n - 1)]}}
-    sm = {'id': 'subst', 'type': 'JC69'} if subst == 'JC69' else \
-        {'id': 'subst', 'type': 'HKY', 'kappa': {'id': 'kappa', 'type': 'Parameter', 'tensor': [3.0]},
-         'frequencies': {'id': 'freqs', 'type': 'Parameter', 'tensor': [0.1, 0.2, 0.3, 0.4]}}
+    if S != 4:
+        # carrier for a model with S states: p_t is replaced by the uninterpreted row-stochastic matrix function and the
+        # frequencies by symbols (evaluate); the replay uses the real GeneralJC69.p_t
+        sm = {'id': 'subst', 'type': 'GeneralJC69', 'state_count': S}
+    else:
+        sm = {'id': 'subst', 'type': 'JC69'} if subst == 'JC69' else \
+            {'id': 'subst', 'type': 'HKY', 'kappa': {'id': 'kappa', 'type': 'Parameter', 'tensor': [3.0]},
+             'frequencies': {'id': 'freqs', 'type': 'Parameter', 'tensor': [0.1, 0.2, 0.3, 0.4]}}
+    site = {'id': 'site', 'type': 'ConstantSiteModel'} if S != 4 else \
+        {'id': 'site', 'type': 'WeibullSiteModel', 'categories': 2, 'shape': {'id': 'shape', 'type': 'Parameter', 'tensor': [0.7]}}
     like = {'id': 'like', 'type': 'TreeLikelihoodModel', 'tree_model': tree,
-            'site_model': {'id': 'site', 'type': 'WeibullSiteModel', 'categories': 2,
-                           'shape': {'id': 'shape', 'type': 'Parameter', 'tensor': [0.7]}},
+            'site_model': site,
             'substitution_model': sm,
             'site_pattern': {'id': 'sp', 'type': 'SitePattern', 'alignment': {
-                'id': 'aln', 'type': 'Alignment', 'datatype': 'nucleotide', 'taxa': 'taxa',
+                'id': 'aln', 'type': 'Alignment', 'datatype': datatype, 'taxa': 'taxa',
                 'sequences': [{'taxon': f't{i}', 'sequence': ''.join(seqs[f't{i}'][c] for c in columns)} for i in seq_order]}},
             'use_tip_states': tip_states, 'use_ambiguities': use_amb}
     if kind == 'time':
@@ -82,10 +176,12 @@ def node_leafsets(tree_model):
 
 
 class Symbols:
-    """one symbol per branch (bipartition) / internal node (clade), shared by both runs"""
+    """one symbol per branch (bipartition) / internal node (clade), shared by all runs; `wit` selects another witness point
+    (other per-node maxima on the rescaled paths)"""
 
-    def __init__(self, n):
+    def __init__(self, n, wit=0):
         self.n = n
+        self.wit = wit
         self.all = frozenset(f't{i}' for i in range(n))
         self.cache = {}
 
@@ -99,10 +195,16 @@ class Symbols:
         a = frozenset(leafset)
         b = self.all - a
         key = a if 't0' not in a else b
-        return self.get('b', key, 0.05 + 0.03 * (sum(int(x[1:]) + 1 for x in key) % 7) + 0.01 * len(key))
+        base = 0.05 + 0.03 * (sum(int(x[1:]) + 1 for x in key) % 7) + 0.01 * len(key)
+        return self.get('b', key, base if not self.wit else 0.9 - 2.5 * base + 0.11 * self.wit)
 
     def height(self, leafset):
-        return self.get('h', leafset, 0.5 + 0.7 * len(leafset) + 0.05 * (sum(int(x[1:]) for x in leafset) % 5))
+        base = 0.5 + 0.7 * len(leafset) + 0.05 * (sum(int(x[1:]) for x in leafset) % 5)
+        return self.get('h', leafset, base if not self.wit else 1.7 * base + 0.3 * self.wit)
+
+
+def pname(S, i, j):
+    return f'P{i}{j}' if S <= 4 else f'P{i}_{j}'
 
 
 def p_witness(S=4):
@@ -113,24 +215,47 @@ def p_witness(S=4):
     def mk(i, j):
         return lambda t: raw(i, j, t) / sum(raw(i, jj, t) for jj in range(S))
 
-    return {f'P{i}{j}': mk(i, j) for i in range(S) for j in range(S)}
+    return {pname(S, i, j): mk(i, j) for i in range(S) for j in range(S)}
 
 
-def stub_p_t(branch_lengths):
-    d = cur().dag
-    ids = branch_lengths._ids
-    out = []
-    for b in ids.reshape(-1).tolist():
-        out.append([[d.uf(f'P{i}{j}', b) for j in range(4)] for i in range(4)])
-    return from_ids(torch.tensor(out, dtype=torch.int64).reshape(tuple(ids.shape) + (4, 4)))
+def make_stub_p_t(S):
+    def stub(branch_lengths):
+        d = cur().dag
+        ids = branch_lengths._ids
+        out = []
+        for b in ids.reshape(-1).tolist():
+            out.append([[d.uf(pname(S, i, j), b) for j in range(S)] for i in range(S)])
+        return from_ids(torch.tensor(out, dtype=torch.int64).reshape(tuple(ids.shape) + (S, S)))
+
+    return stub
 
 
-def evaluate(sp, sym, kind, subst, shared):
-    """build from JSON, install the shared symbols by branch/clade identity, evaluate"""
-    d = cur().dag
-    like, dic = cm.build(sp)
+stub_p_t = make_stub_p_t(4)
+
+
+def shared_symbols(d, S=4, wit=0):
+    fr = [0.1, 0.2, 0.3, 0.4] if S == 4 else [(1.0 + 0.1 * ((7 * i) % 11)) / (S + 0.1 * sum((7 * k) % 11 for k in range(S))) for i in range(S)]
+    return {'shape': d.var('shape', 0.7 if not wit else 1.6), 'rate': d.var('rate', 0.05 if not wit else 0.21),
+            'freqs': [d.var(f'pi{i}', v) for i, v in enumerate(fr)]}
+
+
+def build_doc(doc):
+    """dict = one object, list = a document of top-level objects (references by id between them)"""
+    from torchtree.core.utils import process_objects
+
+    if isinstance(doc, list):
+        dic = {}
+        process_objects(copy.deepcopy(doc), dic)
+        return dic
+    like, dic = cm.build(copy.deepcopy(doc))
+    return dic
+
+
+def install_symbols(dic, sym, kind, subst, shared, S=4):
+    """install the shared symbols by branch / clade identity into the parameters of one built document"""
     n = sym.n
-    ls = node_leafsets(like.tree_model)
+    tree = dic['tree']
+    ls = node_leafsets(tree)
     if kind == 'unrooted':
         ids = []
         for idx in range(2 * n - 3):
@@ -142,11 +267,39 @@ def evaluate(sp, sym, kind, subst, shared):
         ids = [sym.height(ls[n + i]) for i in range(n - 1)]
         dic['heights'].tensor = from_ids(torch.tensor(ids, dtype=torch.int64))
         dic['rate'].tensor = from_ids(torch.tensor([shared['rate']], dtype=torch.int64))
-    dic['shape'].tensor = from_ids(torch.tensor([shared['shape']], dtype=torch.int64))
+    if 'shape' in dic:
+        dic['shape'].tensor = from_ids(torch.tensor([shared['shape']], dtype=torch.int64))
     if subst == 'stub':
-        dic['freqs'].tensor = from_ids(torch.tensor(shared['freqs'], dtype=torch.int64))
-        like.subst_model.p_t = stub_p_t
+        if 'freqs' in dic:
+            dic['freqs'].tensor = from_ids(torch.tensor(shared['freqs'], dtype=torch.int64))
+        else:
+            dic['subst']._frequencies = from_ids(torch.tensor(shared['freqs'], dtype=torch.int64))
+        dic['subst'].p_t = make_stub_p_t(S)
+
+
+def evaluate(sp, sym, kind, subst, shared, rescale=False, S=4):
+    """build from JSON, install the shared symbols by branch/clade identity, evaluate"""
+    dic = build_doc(sp)
+    install_symbols(dic, sym, kind, subst, shared, S)
+    like = dic['like']
+    if rescale:
+        like.rescale = True  # before the first evaluation: the value of a CallableModel is cached
     return like()
+
+
+def trace_units(units, sym, kind, subst, shared, S=4):
+    """unit = {'doc': json, 'eval': [(like id, 'plain' | 'rescaled'), ...]}: one build per unit, the likelihoods of a
+    unit are evaluated in the listed order; returns the node ids of all values"""
+    out = []
+    for u in units:
+        dic = build_doc(u['doc'])
+        install_symbols(dic, sym, kind, subst, shared, S)
+        for lid, mode in u['eval']:
+            if mode == 'rescaled':
+                dic[lid].rescale = True
+        for lid, mode in u['eval']:
+            out.append(int(dic[lid]()._ids.reshape(-1)[0]))
+    return out
 
 
 def variants(n, topology, tier):
@@ -166,25 +319,6 @@ def variants(n, topology, tier):
     out.append(('tip states instead of tip partials (ambiguities as missing)', {'tip_states': True, '_base': {'use_amb': False}},
                 ('time', 'unrooted')))
     # child swaps: at every internal node separately and everywhere
-    def swaps(t):
-        res = []
-
-        def rec(x, path):
-            if isinstance(x, tuple):
-                res.append(path)
-                rec(x[0], path + (0,))
-                rec(x[1], path + (1,))
-
-        rec(t, ())
-        return res
-
-    def swap_at(t, path):
-        if not path:
-            return (t[1], t[0])
-        l = list(t)
-        l[path[0]] = swap_at(t[path[0]], path[1:])
-        return tuple(l)
-
     for path in swaps(topology):
         out.append((f'children swapped at node {path or "root"}', {'_topology': swap_at(topology, path)},
                     ('time',) if not path else ('time', 'unrooted')))
@@ -192,93 +326,263 @@ def variants(n, topology, tier):
     return out
 
 
-def run_pair(tr, label, n, kind, subst, sp1, sp2, extra_hyps_fn=None, sig=''):
-    from torchtree.evolution.tree_likelihood import TreeLikelihoodModel
+def swaps(t):
+    res = []
+
+    def rec(x, path):
+        if isinstance(x, tuple):
+            res.append(path)
+            rec(x[0], path + (0,))
+            rec(x[1], path + (1,))
+
+    rec(t, ())
+    return res
+
+
+def swap_at(t, path):
+    if not path:
+        return (t[1], t[0])
+    l = list(t)
+    l[path[0]] = swap_at(t[path[0]], path[1:])
+    return tuple(l)
+
+
+# ------------------------------------------------------------------ rescaled paths: hoisting the scalers out of the logs
+def hoist(d, node, memo):
+    """node == core * prod(atom ** e) wherever every divisor is non-zero; core and the atoms are division-free nodes (the
+    atoms are the division-free forms of the divisors, i.e. of the per-node per-site scalers).  The rebuilt core follows the
+    shape of the original expression, so the core of a rescaled partial is the expression the plain kernel builds."""
+    if node in memo:
+        return memo[node]
+    op = d.ops[node]
+    a = d.args[node]
+
+    def comb(Fa, Fb, s=1):
+        out = dict(Fa)
+        for k, v in Fb.items():
+            out[k] = out.get(k, 0) + s * v
+        return {k: v for k, v in out.items() if v}
+
+    if op == 'div':
+        na, Fa = hoist(d, a[0], memo)
+        nb, Fb = hoist(d, a[1], memo)
+        F = comb(Fa, Fb, -1)
+        if nb == na:
+            na = 1
+        elif d.ops[nb] == 'const':
+            na = d.mul(na, d.const(1 / d.cval(nb)))
+        else:
+            F = comb(F, {nb: 1}, -1)
+        r = (na, F)
+    elif op == 'mul':
+        na, Fa = hoist(d, a[0], memo)
+        nb, Fb = hoist(d, a[1], memo)
+        r = (d.mul(na, nb), comb(Fa, Fb))
+    elif op == 'add':
+        na, Fa = hoist(d, a[0], memo)
+        nb, Fb = hoist(d, a[1], memo)
+        if Fa == Fb:
+            r = (d.add(na, nb), Fa)
+        else:
+            # common factor = element-wise minimum of the exponents; the rest is multiplied back into the cores
+            G = {k: min(Fa.get(k, 0), Fb.get(k, 0)) for k in set(Fa) | set(Fb)}
+            for k in sorted(G):
+                ea, eb = Fa.get(k, 0) - G[k], Fb.get(k, 0) - G[k]
+                if ea:
+                    na = d.mul(na, d.ipow(k, ea))
+                if eb:
+                    nb = d.mul(nb, d.ipow(k, eb))
+            r = (d.add(na, nb), {k: v for k, v in G.items() if v})
+    elif op == 'ipow':
+        na, Fa = hoist(d, a[0], memo)
+        r = (d.ipow(na, a[1]), {k: v * a[1] for k, v in Fa.items()})
+    else:
+        r = (node, {})
+    memo[node] = r
+    return r
+
+
+def log_normal_form(d, v, memo):
+    """v = sum_i c_i log(x_i): every x_i = core_i * prod atoms ** e is replaced by log core_i + sum e log atom (sound for
+    positive cores / atoms).  Returns (node, number of scaler atoms met)."""
+    from symtorch.axioms import _addends
+
+    out = 0
+    natoms = 0
+    for c, x in reversed(_addends(d, v)):
+        if x is None:
+            out = d.add(out, d.const(c))
+            continue
+        if d.ops[x] == 'uf' and d.args[x][0] == 'log':
+            core, F = hoist(d, d.args[x][1], memo)
+            term = d.log(core)
+            natoms += len(F)
+            for y, k in sorted(F.items()):
+                term = d.add(term, d.mul(d.const(k), d.log(y)))
+            out = d.add(out, d.mul(d.const(c), term))
+        else:
+            out = d.add(out, d.mul(d.const(c), x))
+    return out, natoms
+
+
+# ------------------------------------------------------------------ the relational obligation
+def run_group(tr, label, n, kind, subst, units, relations, sig='', S=4, wit=0, must_differ=()):
+    """units: see trace_units.  relations: list of (goal label, [(coef, value index), ...], signature): sum coef * L == 0."""
+    from torchtree.evolution import tree_likelihood as tl
     from torchtree.evolution.tree_model import setup_indexes
-    from torchtree.evolution.site_pattern import compress
+    from torchtree.evolution.site_pattern import SitePattern, compress, compress_alignment, compress_alignment_states
     from torchtree.evolution.alignment import Alignment
 
     register()
+    TreeLikelihoodModel = tl.TreeLikelihoodModel
     tr.fn(TreeLikelihoodModel._call, TreeLikelihoodModel.from_json, setup_indexes, compress, Alignment.__init__)
+    modes = [m for u in units for _, m in u['eval']]
+    rescaled = any(m == 'rescaled' for m in modes)
+    if rescaled:
+        tr.fn(tl.calculate_treelikelihood_discrete_rescaled, tl.calculate_treelikelihood_tip_states_discrete_rescaled,
+              TreeLikelihoodModel.calculate_with_tip_partials, TreeLikelihoodModel.calculate_with_tip_states)
+    tr.fn(compress_alignment, compress_alignment_states, SitePattern.compute_tips_partials, SitePattern.compute_tips_states)
     with tracing() as t:
         d = t.dag
-        d.uf_eval.update(p_witness())
-        sym = Symbols(n)
-        shared = {'shape': d.var('shape', 0.7), 'rate': d.var('rate', 0.05),
-                  'freqs': [d.var(f'pi{i}', v) for i, v in enumerate([0.1, 0.2, 0.3, 0.4])]}
+        d.uf_eval.update(p_witness(S))
+        sym = Symbols(n, wit)
+        shared = shared_symbols(d, S, wit)
         try:
-            v1 = evaluate(sp1, sym, kind, subst, shared)
-            v2 = evaluate(sp2, sym, kind, subst, shared)
+            vs = trace_units(units, sym, kind, subst, shared, S)
         except Exception as e:
-            tr.violation(f'{sig}:raises', f'{label}: raised {type(e).__name__}: {e}', {'label': label})
+            from symtorch.expr import EngineError
+
+            if isinstance(e, EngineError) or type(e).__name__ == 'UnsupportedOp':
+                tr.inconc(f'{label}: engine: {type(e).__name__}: {e}')
+                return
+            ok, detail = replay_units(n, kind, subst, units, relations, {}, S)
+            if ok:
+                tr.violation(f'{sig}:raises', f'{label}: raised {type(e).__name__}: {e}', {'label': label})
+            else:
+                tr.inconc(f'{label}: raised {type(e).__name__}: {e} under the engine but not on plain tensors ({detail})')
             return
-        tr.witness_runs += 2
+        tr.witness_runs += len(vs)
         tr.ops_checked += t.nchecked
         tr.regions += 1
         if t.concretized:
             tr.inconc(f'{label}: concretised {t.concretized[:2]}')
             return
-        a, b = int(v1._ids.reshape(-1)[0]), int(v2._ids.reshape(-1)[0])
-        goal = d.eq(a, b)
-        V = {d.args[i][0]: i for i in d.topo([a, b]) if d.ops[i] == 'var'}
+        V = {d.args[i][0]: i for i in d.topo(vs) if d.ops[i] == 'var'}
         dom = [d.lt(0, i) for nm, i in V.items()]
         hyps = []
         rewrite = {}
         if subst == 'stub':
-            pargs = sorted({d.args[i][1] for i in d.topo([a, b]) if d.ops[i] == 'uf' and d.args[i][0].startswith('P')})
+            pargs = sorted({d.args[i][1] for i in d.topo(vs) if d.ops[i] == 'uf' and d.args[i][0].startswith('P')})
             for x in pargs:
-                for i in range(4):
+                for i in range(S):
                     rs = 0
-                    for j in range(4):
-                        rs = d.add(rs, d.uf(f'P{i}{j}', x))
+                    for j in range(S):
+                        rs = d.add(rs, d.uf(pname(S, i, j), x))
                     hyps.append(d.eq(rs, 1))
                     rewrite[rs] = 1
             # ground rewriting with the row-sum hypotheses (sum_j P_ij(x) -> 1): sound by congruence, and it removes the
             # nested sums an all-missing column produces in the tip-partial run
             if rewrite:
-                a, b = d.substitute([a, b], rewrite)
-                goal = d.eq(a, b)
-        else:
-            hyps += ground_axioms(d, [goal], rounds=3)
-        if kind == 'time':
-            # valid time tree: every clade older than its sub-clades (heights positive)
-            pass
-        tr.sample({'case': label, 'identical_expressions': a == b, 'nodes': d.size([a, b])})
+                vs = d.substitute(vs, rewrite)
+        for i, j in must_differ:
+            if vs[i] == vs[j] or abs(d.vals[vs[i]] - d.vals[vs[j]]) <= 1e-9:
+                tr.inconc(f'{label}: vacuity guard: the data do not distinguish the two flag settings (values {d.vals[vs[i]]}, {d.vals[vs[j]]})')
+                return
+        pcs = list(t.pcs)
+        natoms = 0
+        if rescaled:
+            # which entry is the per-node per-site maximum was decided on the witness (path conditions); the identity is
+            # proved for the scalers of this region without using the conditions (it holds for any non-zero scaler)
+            memo = {}
+            nvs = []
+            for v in vs:
+                nv, k_ = log_normal_form(d, v, memo)
+                natoms += k_
+                if not abs(d.vals[nv] - d.vals[v]) <= 1e-9 * max(1.0, abs(d.vals[v])):
+                    tr.inconc(f'{label}: harness: hoisting the scalers changed the witness value ({d.vals[v]} -> {d.vals[nv]})')
+                    return
+                nvs.append(nv)
+            if natoms == 0:
+                tr.inconc(f'{label}: vacuity guard: no scaler in the rescaled evaluation')
+                return
+            vs = nvs
+            pcs = []
+        goals = []
+        first = None
+        for glabel, terms, gsig in relations:
+            lhs = rhs = 0
+            for c, k in terms:
+                if c > 0:
+                    lhs = d.add(lhs, d.mul(d.const(c), vs[k]))
+                else:
+                    rhs = d.add(rhs, d.mul(d.const(-c), vs[k]))
+            a, b = lhs, rhs
+            goal = d.eq(a, b)
+            if first is None:
+                first = (a, b)
+            ghyps = []
+            if subst != 'stub':
+                ghyps = ground_axioms(d, [goal], rounds=3)
+            lemmas = []
+            holds_at_witness = abs(d.vals[a] - d.vals[b]) <= 1e-7 * max(1.0, abs(d.vals[a]))
+            if a != b and holds_at_witness:
+                # lemma chaining: match the site-pattern likelihoods (arguments of the logs) of the two sides on the witness
+                # and prove them equal one by one; the sum of logs then follows by congruence.  A lemma is a proof aid, not an
+                # obligation: the pairing is guessed from the witness values (several log arguments can coincide there, e.g. an
+                # all-missing pattern and a scaler that are both 1), so a lemma that is not proved is simply not used
+                import C01
+                from symtorch.explore import prove
+
+                s1, s2 = C01.split_sites(d, a, None), C01.split_sites(d, b, None)
+                if s1 and s2:
+                    seen = set()
+                    right = {x2 for _, x2 in s2}
+                    for k_, (c1, x1) in enumerate(s1):
+                        if x1 in right or x1 in seen:
+                            continue
+                        seen.add(x1)
+                        cands = [(c2 != c1, x2) for (c2, x2) in s2 if abs(d.vals[x2] - d.vals[x1]) <= 1e-9 * max(1.0, abs(d.vals[x1]))]
+                        for _, x2 in sorted(set(cands))[:3]:
+                            lem = d.eq(x1, x2)
+                            st, _r, _text = prove(d, dom + hyps + pcs + list(ghyps), lem, timeout=30, tr=tr, parallel=True,
+                                                  label=f'{glabel}: pattern {k_}: site likelihoods of the two specifications are equal')
+                            if st == 'proved':
+                                lemmas.append(lem)
+                                break
+            goals.append((glabel, goal, lemmas + ghyps, gsig))
+        tr.sample({'case': label, 'identical_expressions': first[0] == first[1], 'nodes': d.size(list(first)),
+                   'path_conditions': len(t.pcs), 'scaler_atoms': natoms})
 
         def replay(vals):
-            return replay_pair(n, kind, subst, sp1, sp2, vals)
+            return replay_units(n, kind, subst, units, relations, vals, S)
 
-        goals = []
-        if a != b:
-            # lemma chaining: match the site-pattern likelihoods (arguments of the logs) of the two runs on the witness and
-            # prove them equal one by one; the sum of logs then follows by congruence
-            import C01
-
-            s1, s2 = C01.split_sites(d, a, None), C01.split_sites(d, b, None)
-            if s1 and s2:
-                for k_, (c1, x1) in enumerate(s1):
-                    cands = [x2 for (c2, x2) in s2 if abs(d.vals[x2] - d.vals[x1]) <= 1e-9 * max(1.0, abs(d.vals[x1]))]
-                    if cands and cands[0] != x1:
-                        goals.append((f'pattern {k_}: site likelihoods of the two specifications are equal', d.eq(x1, cands[0]), [], sig))
-        goals.append(('log-likelihoods of the two specifications are equal', goal, [g[1] for g in goals], sig))
-        cm.discharge(tr, d, dom + hyps + list(t.pcs), goals,
-                     label, replay=replay, varnodes=V, defined=False, timeout=90, parallel=True)
-        # vacuity guard: the likelihood depends on the shared symbols (solver finds two different values)
-        from symtorch.explore import prove
-
+        # a goal that is already false at the witness point is only asked with a short budget: the witness is replayed on the
+        # real code whatever the solver says (sat, or undecided = "witness separates")
+        false_at_witness = any(not abs(d.vals[d.args[g[1]][0]] - d.vals[d.args[g[1]][1]]) <= 1e-7 * max(1.0, abs(d.vals[d.args[g[1]][0]]))
+                               for g in goals if g[1] != d.TRUE and d.ops[g[1]] == 'eq')
+        cm.discharge(tr, d, dom + hyps + pcs, goals, label, replay=replay, varnodes=V, defined=False,
+                     timeout=12 if false_at_witness else 90, parallel=True)
+        # vacuity guard: the likelihood depends on the shared symbols
         some = next((i for nm, i in sorted(V.items()) if nm.startswith(('b{', 'h{'))), None)
-        if some is not None and a == b:
-            g = d.grad(a, [some], honour_stops=False)[0]
+        if some is not None and first[0] == first[1]:
+            g = d.grad(first[0], [some], honour_stops=False)[0]
             if g == 0:
                 tr.inconc(f'{label}: vacuity guard: the likelihood does not depend on {d.to_str(some)}')
 
 
-def replay_pair(n, kind, subst, sp1, sp2, vals):
-    """plain tensors; the real HKY p_t stands for the uninterpreted P"""
-    def run(sp):
-        like, dic = cm.build(sp)
-        ls = node_leafsets(like.tree_model)
-        allt = frozenset(f't{i}' for i in range(n))
+def run_pair(tr, label, n, kind, subst, sp1, sp2, extra_hyps_fn=None, sig='', modes=('plain', 'plain'), S=4, wit=0):
+    units = [{'doc': sp1, 'eval': [('like', modes[0])]}, {'doc': sp2, 'eval': [('like', modes[1])]}]
+    run_group(tr, label, n, kind, subst, units,
+              [('log-likelihoods of the two specifications are equal', [(1, 0), (-1, 1)], sig)], sig=sig, S=S, wit=wit)
+
+
+def concrete_units(n, kind, subst, units, vals, S=4):
+    """plain tensors; the real HKY / GeneralJC69 p_t stands for the uninterpreted P"""
+    allt = frozenset(f't{i}' for i in range(n))
+    out = []
+    for u in units:
+        dic = build_doc(u['doc'])
+        ls = node_leafsets(dic['tree'])
 
         def val(prefix, key, default):
             nm = prefix + '{' + ','.join(sorted(key)) + '}'
@@ -292,45 +596,88 @@ def replay_pair(n, kind, subst, sp1, sp2, vals):
                 bl.append(val('b', key, 0.05 + 0.02 * len(key)))
             dic['blens'].tensor = torch.tensor(bl, dtype=torch.float64)
         else:
-            hs = [0.3 * len(ls[n + i]) + val('h', ls[n + i], 0.5) * 0.0 + 0.1 * i for i in range(n - 1)]
             # heights consistent with the clade structure: bigger clade is older
             hs = [0.5 * len(ls[n + i]) + 0.01 * (sum(int(x[1:]) for x in ls[n + i]) % 5) for i in range(n - 1)]
             dic['heights'].tensor = torch.tensor(hs, dtype=torch.float64)
             dic['rate'].tensor = torch.tensor([abs(vals.get('rate', 0.05)) + 1e-3], dtype=torch.float64)
-        dic['shape'].tensor = torch.tensor([abs(vals.get('shape', 0.7)) + 0.05], dtype=torch.float64)
-        if 'freqs' in dic:
-            fr = torch.tensor([abs(vals.get(f'pi{i}', v)) + 0.01 for i, v in enumerate([0.1, 0.2, 0.3, 0.4])], dtype=torch.float64)
-            dic['freqs'].tensor = fr / fr.sum()
-            dic['kappa'].tensor = dic['kappa'].tensor.to(torch.float64)
-        return float(like())
+        if 'shape' in dic:
+            dic['shape'].tensor = torch.tensor([abs(vals.get('shape', 0.7)) + 0.05], dtype=torch.float64)
+        if subst == 'stub':
+            fr = torch.tensor([abs(vals.get(f'pi{i}', 0.1 + 0.1 * (i % 4))) + 0.01 for i in range(S)], dtype=torch.float64)
+            if 'freqs' in dic:
+                dic['freqs'].tensor = fr / fr.sum()
+                dic['kappa'].tensor = dic['kappa'].tensor.to(torch.float64)
+            else:
+                dic['subst']._frequencies = fr / fr.sum()
+        for lid, mode in u['eval']:
+            if mode == 'rescaled':
+                dic[lid].rescale = True
+        for lid, mode in u['eval']:
+            out.append(float(dic[lid]()))
+    return out
 
+
+def replay_units(n, kind, subst, units, relations, vals, S=4):
     try:
-        a, b = run(sp1), run(sp2)
+        L = concrete_units(n, kind, subst, units, vals, S)
     except Exception as e:
         return True, f'raised {type(e).__name__}: {e}'
-    if abs(a - b) > 1e-9 * max(1.0, abs(a)):
-        return True, f'log-likelihood {a} for the first specification, {b} for the equivalent one'
-    return False, f'agree ({a})'
+    for glabel, terms, gsig in relations:
+        r = sum(c * L[k] for c, k in terms)
+        if not abs(r) <= 1e-9 * max(1.0, max(abs(L[k]) for _, k in terms)):
+            if len(terms) == 2:
+                return True, f'log-likelihood {L[terms[0][1]]} for the first specification, {L[terms[1][1]]} for the equivalent one'
+            return True, f'{glabel}: ' + ' '.join(f'{c:+d}*({L[k]})' for c, k in terms) + f' = {r}, expected 0'
+    return False, f'agree ({L[0]})'
+
+
+def replay_pair(n, kind, subst, sp1, sp2, vals, modes=('plain', 'plain'), S=4):
+    units = [{'doc': sp1, 'eval': [('like', modes[0])]}, {'doc': sp2, 'eval': [('like', modes[1])]}]
+    return replay_units(n, kind, subst, units, [('', [(1, 0), (-1, 1)], '')], vals, S)
+
+
+MODE_TAG = {('plain', 'plain'): '', ('rescaled', 'rescaled'): ' [both rescaled]', ('rescaled', 'plain'): ' [first rescaled, second plain]',
+            ('plain', 'rescaled'): ' [first plain, second rescaled]'}
+
+
+def sig_of(vlabel):
+    return vlabel.split(" (")[0].rstrip("0123456789,()[] ")
 
 
 def run_task(task, tr):
     register()
     kind_of_task = task[0]
     if kind_of_task == 'rewrite':
-        _, n, topology, kind, vlabel, kw = task
+        _, n, topology, kind, vlabel, kw = task[:6]
+        opts = task[6] if len(task) > 6 else {}
+        modes = tuple(opts.get('modes', ('plain', 'plain')))
+        alpha = opts.get('alpha')
         kw = dict(kw)
-        base_kw = kw.pop('_base', {})
+        base_kw = dict(kw.pop('_base', {}))
         topo2 = kw.pop('_topology', topology)
+        if alpha:
+            base_kw['alpha'] = alpha
         sp1 = spec(n, topology, kind, **base_kw)
         sp2 = spec(n, topo2, kind, **{**base_kw, **kw})
-        label = f'{kind} tree {newick(topology)} : {vlabel}'
-        run_pair(tr, label, n, kind, 'stub', sp1, sp2, sig=f'rewrite:{kind}:{vlabel.split(" (")[0].rstrip("0123456789,()[] ")}')
+        S = ALPHA[alpha]['S'] if alpha else 4
+        if alpha:
+            from torchtree.evolution import datatype as dt
+
+            cls = {'nucleotide': dt.NucleotideDataType, 'aminoacid': dt.AminoAcidDataType}.get(alpha, dt.GeneralDataType)
+            tr.fn(cls.encoding, cls.partial)
+        label = f'{kind} tree {newick(topology)} : {vlabel}' + (f' [{alpha} alphabet with rare symbols]' if alpha else '') + MODE_TAG[modes]
+        sig = f'alphabet:{alpha}:{sig_of(vlabel)}' if alpha else f'rewrite:{kind}:{sig_of(vlabel)}'
+        if modes != ('plain', 'plain'):
+            sig += ':' + '/'.join(modes)
+        run_pair(tr, label, n, kind, 'stub', sp1, sp2, sig=sig, modes=modes, S=S, wit=opts.get('wit', 0))
     elif kind_of_task == 'merge':
-        _, n, topology, kind = task
-        merge_task(tr, n, topology, kind)
+        _, n, topology, kind = task[:4]
+        merge_task(tr, n, topology, kind, task[4] if len(task) > 4 else {})
+    elif kind_of_task == 'share':
+        share_task(tr, *task[1:])
     elif kind_of_task == 'kbl':
-        _, n, topology, topo2, what = task
-        kbl_task(tr, n, topology, topo2, what)
+        _, n, topology, topo2, what = task[:5]
+        kbl_task(tr, n, topology, topo2, what, *(task[5:]))
     else:
         _, n, topology, topo2, what = task
         sp1 = spec(n, topology, 'unrooted', subst='JC69')
@@ -339,13 +686,15 @@ def run_task(task, tr):
         run_pair(tr, label, n, 'unrooted', 'JC69', sp1, sp2, sig=f'reroot:JC69:{what}')
 
 
-def kbl_task(tr, n, topology, topo2, what):
+# ------------------------------------------------------------------ keep_branch_lengths
+def kbl_task(tr, n, topology, topo2, what, split=(0.4, 0.6), shape=''):
     """keep_branch_lengths: branch lengths are read from the Newick string; the same unrooted tree written with a different
-    root position / child order (root branch split 40:60) must give the same JC69 likelihood"""
+    root position / child order / root shape (two root branches splitting the root branch `split`, or a trifurcation at the
+    root) must give the same JC69 likelihood.  The reference is always written with the root branch split 40:60."""
     from symtorch.axioms import const_exp_axioms
-    from torchtree.evolution.tree_model import UnRootedTreeModel
+    from torchtree.evolution.tree_model import UnRootedTreeModel, parse_tree
 
-    tr.fn(UnRootedTreeModel.from_json)
+    tr.fn(UnRootedTreeModel.from_json, parse_tree)
     allt = frozenset(f't{i}' for i in range(n))
 
     def blen(leafset):
@@ -356,37 +705,38 @@ def kbl_task(tr, n, topology, topo2, what):
     def leafset(t):
         return frozenset(f't{x}' for x in cm.leaves(t))
 
-    def nw(t, root=True):
+    def nw(t, root=True, split=(0.4, 0.6)):
         if not isinstance(t, tuple):
             return f't{t}'
         parts = []
         for k, c in enumerate(t):
             L = blen(leafset(c))
-            if root:
-                L = round(L * (0.4 if k == 0 else 0.6), 6)
+            if root and len(t) == 2:
+                L = round(L * split[k], 6)
             parts.append(f'{nw(c, False)}:{L}')
         return '(' + ','.join(parts) + ')'
 
-    def mk(t):
-        sp = spec(n, t, 'unrooted', subst='JC69')
-        sp['tree_model']['newick'] = nw(t) + ';'
+    def mk(t, split=(0.4, 0.6)):
+        sp = spec(n, t if len(t) == 2 else topology, 'unrooted', subst='JC69')
+        sp['tree_model']['newick'] = nw(t, split=split) + ';'
         sp['tree_model']['keep_branch_lengths'] = True
         sp['site_model'] = {'id': 'site', 'type': 'ConstantSiteModel'}
         return sp
 
-    label = f'keep_branch_lengths JC69 {nw(topology)} -> {nw(topo2)} ({what})'
+    label = f'keep_branch_lengths JC69 {nw(topology)} -> {nw(topo2, split=split)} ({what})'
     with tracing() as t:
         d = t.dag
         try:
             l1, _ = cm.build(mk(topology))
-            l2, _ = cm.build(mk(topo2))
+            l2, _ = cm.build(mk(topo2, split))
             # the engine reads the constant branch lengths as exact rationals: wrap them as constant SymTensors
             for l in (l1, l2):
                 bl = l.tree_model._branch_lengths
                 bl.tensor = from_ids(torch.tensor([d.const(round(float(v), 6)) for v in bl.tensor.tolist()], dtype=torch.int64))
             v1, v2 = l1(), l2()
         except Exception as e:
-            tr.violation('keep_branch_lengths:raises', f'{label}: raised {type(e).__name__}: {e}', {'label': label})
+            tr.violation('keep_branch_lengths:raises' + (f':{shape}' if shape else ''), f'{label}: raised {type(e).__name__}: {e}',
+                         {'label': label})
             return
         tr.witness_runs += 2
         tr.regions += 1
@@ -398,7 +748,7 @@ def kbl_task(tr, n, topology, topo2, what):
             import torchtree.evolution.tree_likelihood  # noqa
 
             m1, _ = cm.build(mk(topology))
-            m2, _ = cm.build(mk(topo2))
+            m2, _ = cm.build(mk(topo2, split))
             for m in (m1, m2):
                 m.tree_model._branch_lengths.tensor = m.tree_model._branch_lengths.tensor.to(torch.float64)
             x, y = float(m1()), float(m2())
@@ -407,39 +757,120 @@ def kbl_task(tr, n, topology, topo2, what):
             return False, 'agree'
 
         tr.sample({'case': label})
+        sig = f'keep_branch_lengths:{what.split(" ")[0]}' + (f':{shape}' if shape else '')
+        # (a goal that is false at the witness is asked with a short budget: the replay decides anyway)
+        false_at_witness = not abs(d.vals[a] - d.vals[b]) <= 1e-7 * max(1.0, abs(d.vals[a]))
         cm.discharge(tr, d, hyps, [('same unrooted tree with lengths kept from the Newick string: log-likelihoods are equal', goal, [],
-                                    f'keep_branch_lengths:{what.split(" ")[0]}')], label, replay=replay, varnodes={}, defined=False,
-                     timeout=60, parallel=True)
+                                    sig)], label, replay=replay, varnodes={}, defined=False,
+                     timeout=12 if false_at_witness else 60, parallel=True)
 
 
-def merge_task(tr, n, topology, kind):
+# ------------------------------------------------------------------ merging identical columns
+def merge_task(tr, n, topology, kind, opts=None):
     """L(columns c0..c4 where c3 repeats c0) == L(columns without the repeat) + L(the repeated column alone)"""
     from torchtree.evolution.site_pattern import compress
 
+    opts = opts or {}
     tr.fn(compress)
-    label = f'{kind} tree {newick(topology)} : merging the repeated column into a weighted pattern'
-    with tracing() as t:
-        d = t.dag
-        d.uf_eval.update(p_witness())
-        sym = Symbols(n)
-        shared = {'shape': d.var('shape', 0.7), 'rate': d.var('rate', 0.05),
-                  'freqs': [d.var(f'pi{i}', v) for i, v in enumerate([0.1, 0.2, 0.3, 0.4])]}
-        full = evaluate(spec(n, topology, kind, columns=[0, 1, 2, 3, 4]), sym, kind, 'stub', shared)
-        without = evaluate(spec(n, topology, kind, columns=[0, 1, 2, 4]), sym, kind, 'stub', shared)
-        single = evaluate(spec(n, topology, kind, columns=[3]), sym, kind, 'stub', shared)
-        tr.witness_runs += 3
-        tr.regions += 1
-        a = int(full._ids.reshape(-1)[0])
-        b = d.add(int(without._ids.reshape(-1)[0]), int(single._ids.reshape(-1)[0]))
-        V = {d.args[i][0]: i for i in d.topo([a, b]) if d.ops[i] == 'var'}
-        tr.sample({'case': label, 'nodes': d.size([a, b])})
-        cm.discharge(tr, d, [d.lt(0, i) for i in V.values()] + list(t.pcs),
-                     [('L(with repeated column) == L(without it) + L(that column)', d.eq(a, b), [], f'merge:{kind}')], label,
-                     replay=lambda vals: (False, 'no replay (three-model identity)'), varnodes=V, defined=False, timeout=60,
-                     parallel=True)
+    modes = tuple(opts.get('modes', ('plain', 'plain', 'plain')))
+    alpha = opts.get('alpha')
+    kw = {'tip_states': bool(opts.get('tip_states', False)), 'use_amb': bool(opts.get('use_amb', True))}
+    if alpha:
+        kw['alpha'] = alpha
+        ncol = len(ALPHA[alpha]['columns'])
+        rep = max(i for i in range(ncol) if ALPHA[alpha]['columns'][i] in ALPHA[alpha]['columns'][:i])
+    else:
+        ncol, rep = 5, 3
+    S = ALPHA[alpha]['S'] if alpha else 4
+    if not opts:
+        # the original three-model identity (plain kernel, tip partials with ambiguities)
+        label = f'{kind} tree {newick(topology)} : merging the repeated column into a weighted pattern'
+        sig = f'merge:{kind}'
+    else:
+        label = (f'{kind} tree {newick(topology)} : merging the repeated column into a weighted pattern ['
+                 + ('tip states' if kw['tip_states'] else 'tip partials') + (f', {alpha} alphabet with rare symbols' if alpha else '')
+                 + '; with the repeat ' + modes[0] + ', without it ' + modes[1] + ', the column alone ' + modes[2] + ']')
+        sig = f'merge:{kind}:' + ('tip-states' if kw['tip_states'] else 'tip-partials') + (f':{alpha}' if alpha else '') + ':' + '/'.join(modes)
+    units = [{'doc': spec(n, topology, kind, columns=list(range(ncol)), **kw), 'eval': [('like', modes[0])]},
+             {'doc': spec(n, topology, kind, columns=[c for c in range(ncol) if c != rep], **kw), 'eval': [('like', modes[1])]},
+             {'doc': spec(n, topology, kind, columns=[rep], **kw), 'eval': [('like', modes[2])]}]
+    run_group(tr, label, n, kind, 'stub', units,
+              [('L(with repeated column) == L(without it) + L(that column)', [(1, 0), (-1, 1), (-1, 2)], sig)], sig=sig, S=S)
 
 
-def reroots(topology, n):
+# ------------------------------------------------------------------ shared objects
+FLAGS = {
+    'partials+ambiguities': {'use_tip_states': False, 'use_ambiguities': True},
+    'partials': {'use_tip_states': False, 'use_ambiguities': False},
+    'states': {'use_tip_states': True, 'use_ambiguities': False},
+    'states+ambiguities': {'use_tip_states': True, 'use_ambiguities': True},
+}
+
+
+def share_doc(n, topology, kind, style, fa, fb, order, alpha=None):
+    """A document with the likelihoods likeA (flags fa) and likeB (flags fb), constructed in `order` ('AB' | 'BA'), that
+    refer to the same objects by id.  style: 'flat' (every shared object is a top-level object, both likelihoods refer to
+    all of them by id), 'nested' (the first likelihood defines everything inline, the second refers to it by id),
+    'alignment' (as flat, but each likelihood has its own SitePattern over the one Alignment)."""
+    kw = {'alpha': alpha} if alpha else {}
+    base = spec(n, topology, kind, **kw)
+    parts = [('tree_model', 'tree'), ('substitution_model', 'subst'), ('site_model', 'site')]
+    if kind == 'time':
+        parts.append(('branch_model', 'clock'))
+    parts.append(('site_pattern', 'sp'))
+
+    def like(name, flags, inline):
+        out = {'id': 'like' + name, 'type': 'TreeLikelihoodModel'}
+        for key, id_ in parts:
+            out[key] = copy.deepcopy(base[key]) if inline else id_
+        out.update(FLAGS[flags])
+        return out
+
+    flags = {'A': fa, 'B': fb}
+    if style == 'nested':
+        return [like(order[0], flags[order[0]], True), like(order[1], flags[order[1]], False)]
+    doc = [copy.deepcopy(base[key]) for key, _ in parts]
+    likes = [like(x, flags[x], False) for x in order]
+    if style == 'alignment':
+        # the second constructed likelihood gets its own SitePattern over the shared Alignment
+        doc.append({'id': 'sp2', 'type': 'SitePattern', 'alignment': 'aln'})
+        likes[1]['site_pattern'] = 'sp2'
+    return doc + likes
+
+
+def share_task(tr, n, topology, kind, style, fa, fb, order, ma='plain', mb='plain', evalorder='built', alpha=None):
+    from torchtree.core.utils import process_objects
+
+    tr.fn(process_objects)
+    modes = {'A': ma, 'B': mb}
+    ev = list(order) if evalorder == 'built' else list(order)[::-1]
+    kw = {'alpha': alpha} if alpha else {}
+    S = ALPHA[alpha]['S'] if alpha else 4
+
+    def alone(flags):
+        f = FLAGS[flags]
+        return spec(n, topology, kind, tip_states=f['use_tip_states'], use_amb=f['use_ambiguities'], **kw)
+
+    units = [{'doc': share_doc(n, topology, kind, style, fa, fb, order, alpha), 'eval': [('like' + x, modes[x]) for x in ev]},
+             {'doc': alone(fa), 'eval': [('like', ma)]}, {'doc': alone(fb), 'eval': [('like', mb)]}]
+    pos = {x: i for i, x in enumerate(ev)}
+    diff = 'use_ambiguities' if FLAGS[fa]['use_tip_states'] == FLAGS[fb]['use_tip_states'] else 'use_tip_states'
+    if fa == fb:
+        diff = 'rescale'
+    sig = f'share:{style}:{diff}'
+    label = (f'{kind} tree {newick(topology)} : shared objects ({style}), likeA [{fa}, {ma}] and likeB [{fb}, {mb}] constructed in order '
+             f'{order}, evaluated {"in that order" if evalorder == "built" else "in reverse order"}'
+             + (f' [{alpha} alphabet with rare symbols]' if alpha else ''))
+    rel = [(f'likeA [{fa}] built next to likeB [{fb}] over shared objects == the same likelihood built alone', [(1, pos['A']), (-1, 2)],
+            sig),
+           (f'likeB [{fb}] built next to likeA [{fa}] over shared objects == the same likelihood built alone', [(1, pos['B']), (-1, 3)],
+            sig)]
+    # vacuity guard (checked on the witness inside run_group): honouring the ambiguity codes changes the value, so a
+    # likelihood that picks up the other one's tip vectors cannot go unnoticed
+    run_group(tr, label, n, kind, 'stub', units, rel, sig=sig, S=S, must_differ=[(2, 3)] if (fa == 'partials+ambiguities') != (fb == 'partials+ambiguities') else [])
+
+
+def reroots(topology, n, both_orders=False, trifurcations=False):
     """all rootings of the unrooted tree underlying `topology` (as nested tuples), one per branch"""
     # unrooted adjacency from the rooted tuple with the root suppressed
     adj = {}
@@ -474,7 +905,21 @@ def reroots(topology, n):
     out = []
     for (u, v) in edges:
         out.append(((build(u, v), build(v, u)), f'root on branch {u}-{v}'))
+        if both_orders:
+            out.append(((build(v, u), build(u, v)), f'root on branch {u}-{v}, children in the other order'))
+    if trifurcations:
+        for u in sorted(x for x in adj if x >= n):
+            kids = [build(v, u) for v in adj[u]]
+            out.append((tuple(kids), f'root trifurcation at node {u}'))
+            out.append((tuple(kids[1:] + kids[:1]), f'root trifurcation at node {u}, children rotated'))
+            out.append((tuple(kids[::-1]), f'root trifurcation at node {u}, children reversed'))
     return out
+
+
+def root_shape(t):
+    if len(t) == 3:
+        return 'trifurcation'
+    return '(' + ','.join('clade' if isinstance(c, tuple) else 'leaf' for c in t) + ')'
 
 
 def tasks_for(tier):
@@ -505,19 +950,185 @@ def tasks_for(tier):
         topo = cm.balanced(4)
         for t2, what in reroots(topo, 4):
             ts.append(('reroot', 4, topo, t2, what))
+    ts += tasks_m02(tier)
+    return ts
+
+
+def tasks_m02(tier):
+    """the region added in the M02 round (see the module docstring)"""
+    ts = []
+    quick = tier == 'quick'
+    RR, RP, PR = ('rescaled', 'rescaled'), ('rescaled', 'plain'), ('plain', 'rescaled')
+    TIPS = ('tip states instead of tip partials (ambiguities as missing)', {'tip_states': True, '_base': {'use_amb': False}})
+    # ---- (2) evaluation path: every rewrite with both sides rescaled and mixed
+    for n in (3, 4):
+        topos = [cm.caterpillar(n)] if quick else [cm.caterpillar(n), cm.balanced(n)] if n == 4 else [cm.caterpillar(n)]
+        if n == 4 and quick:
+            topos = [cm.balanced(4)]
+        for topo in topos:
+            vs = variants(n, topo, tier)
+            if quick and n == 4:
+                # n = 4, quick: one representative per kind of rewrite and tree kind (the thorough tier takes them all)
+                seen = set()
+                sel = []
+                for v in vs:
+                    k = sig_of(v[0])
+                    if k not in seen:
+                        seen.add(k)
+                        sel.append(v)
+                vs = sel
+            for vlabel, kw, kinds in vs:
+                for kind in kinds:
+                    is_tips = 'tip states' in vlabel
+                    for modes in ((RR, RP, PR) if (is_tips or not quick) else (RR, RP)):
+                        ts.append(('rewrite', n, topo, kind, vlabel, kw, {'modes': modes}))
+                    if is_tips and (n == 3 or not quick):
+                        # a second witness point: other entries are the per-node maxima
+                        ts.append(('rewrite', n, topo, kind, vlabel, kw, {'modes': RR, 'wit': 1}))
+                        ts.append(('rewrite', n, topo, kind, vlabel, kw, {'modes': RP, 'wit': 1}))
+            for kind in ('time', 'unrooted'):
+                for tip_states in (False, True):
+                    combos = [('rescaled',) * 3, ('rescaled', 'plain', 'plain')]
+                    if tip_states:
+                        combos.append(('plain',) * 3)
+                    if not quick:
+                        combos.append(('plain', 'rescaled', 'rescaled'))
+                    if quick and n == 4:
+                        combos = combos[:1] if kind == 'time' else combos[1:2]
+                    for modes in combos:
+                        ts.append(('merge', n, topo, kind, {'modes': modes, 'tip_states': tip_states, 'use_amb': not tip_states}))
+    # ---- (1) alphabet of the written data
+    for alpha in ALPHA:
+        S = ALPHA[alpha]['S']
+        ncol = len(ALPHA[alpha]['columns'])
+        kinds = ('time', 'unrooted') if (alpha == 'nucleotide' or not quick) and S == 4 else ('unrooted',)
+        sizes = (3, 4) if S == 4 and (alpha == 'nucleotide' or not quick) else (3,)
+        for n in sizes:
+            topo = cm.caterpillar(n) if n == 3 else cm.balanced(4)
+            perm = tuple(range(1, n)) + (0,)
+            colp = [(3 * c + 1) % ncol for c in range(ncol)] if ncol % 3 else [(5 * c + 1) % ncol for c in range(ncol)]
+            assert sorted(colp) == list(range(ncol))
+            for kind in kinds:
+                def add(vlabel, kw, **opts):
+                    ts.append(('rewrite', n, topo, kind, vlabel, kw, dict(opts, alpha=alpha)))
+
+                # representations of the written data
+                add(*TIPS)
+                if alpha == 'nucleotide' or (not quick and alpha != 'general+ambiguity'):
+                    for modes in (RR, RP, PR):
+                        add(*TIPS, modes=modes)
+                # written symbols against the canonical spelling of the independent table
+                add('written symbols vs canonical spelling, tip partials with ambiguities as missing',
+                    {'canon': 'missing', '_base': {'use_amb': False}})
+                add('written symbols vs canonical spelling, tip states', {'canon': 'missing', '_base': {'tip_states': True, 'use_amb': False}})
+                if not alpha.startswith('general'):
+                    add('written symbols vs canonical upper-case codes, tip partials with ambiguities',
+                        {'canon': 'code', '_base': {'use_amb': True}})
+                add('tip states of the written symbols vs tip partials of the canonical spelling',
+                    {'canon': 'missing', 'tip_states': False, '_base': {'tip_states': True, 'use_amb': False}})
+                # the other rewrites on this alphabet, in the tip-state representation (and tip partials for nucleotides)
+                reps = [{'tip_states': True, 'use_amb': False}]
+                if alpha == 'nucleotide' or not quick:
+                    reps.append({'tip_states': False, 'use_amb': False})
+                for rep in reps:
+                    tag = ' (tip states)' if rep['tip_states'] else ' (tip partials)'
+                    add(f'taxa list reordered {perm}' + tag, {'taxa_order': perm, '_base': rep})
+                    if kind == 'time' or len(kinds) == 1:
+                        add(f'sequence list reordered {perm}' + tag, {'seq_order': perm, '_base': rep})
+                    add(f'alignment columns reordered {colp}' + tag, {'columns': colp, '_base': rep})
+                    if kind == 'unrooted':
+                        # a swap at the root moves the zero-length root branch (P is not assumed reversible): non-root swaps only
+                        add('children swapped at node (0,)' + tag, {'_topology': swap_at(topo, (0,)), '_base': rep})
+                    else:
+                        add('children swapped at every node' + tag, {'_topology': cm.mirror(topo), '_base': rep})
+                    ts.append(('merge', n, topo, kind, {'modes': ('plain',) * 3, 'alpha': alpha, **rep}))
+                    if alpha == 'nucleotide':
+                        ts.append(('merge', n, topo, kind, {'modes': ('rescaled',) * 3, 'alpha': alpha, **rep}))
+    # ---- (3) sharing
+    pairs = [('partials+ambiguities', 'partials'), ('states', 'partials'), ('states', 'partials+ambiguities'),
+             ('states+ambiguities', 'partials')]
+    for n in ((3,) if quick else (3, 4)):
+        topo = cm.caterpillar(n) if n == 3 else cm.balanced(4)
+        for kind in ('unrooted', 'time'):
+            for style in ('flat', 'nested', 'alignment'):
+                for fa, fb in pairs:
+                    for order in ('AB', 'BA'):
+                        if quick and fa == 'states+ambiguities' and (kind == 'time' or style != 'flat'):
+                            continue
+                        ts.append(('share', n, topo, kind, style, fa, fb, order))
+                        if not quick:
+                            ts.append(('share', n, topo, kind, style, fa, fb, order, 'plain', 'plain', 'reverse'))
+                # same construction flags, different evaluation path
+                for fl in ('partials', 'states'):
+                    for order in ('AB', 'BA'):
+                        if quick and kind == 'time' and style != 'flat':
+                            continue
+                        ts.append(('share', n, topo, kind, style, fl, fl, order, 'rescaled', 'plain'))
+                if not quick or (kind == 'unrooted' and style == 'flat'):
+                    ts.append(('share', n, topo, kind, style, 'partials+ambiguities', 'partials', 'AB', 'rescaled', 'plain'))
+                    ts.append(('share', n, topo, kind, style, 'states', 'partials', 'BA', 'plain', 'rescaled'))
+            # rare symbols through a shared site pattern
+            ts.append(('share', n, topo, kind, 'flat', 'states', 'partials', 'AB', 'plain', 'plain', 'built', 'nucleotide'))
+            ts.append(('share', n, topo, kind, 'flat', 'partials+ambiguities', 'states', 'BA', 'plain', 'plain', 'built', 'nucleotide'))
+    # ---- (4) keep_branch_lengths: root shape x longer root branch
+    for base in ([cm.caterpillar(3), cm.caterpillar(4)] if quick else [cm.caterpillar(3), cm.caterpillar(4), cm.balanced(4)]):
+        nn = len(cm.leaves(base))
+        ts.append(('kbl', nn, base, cm.mirror(base), 'swap of the children of every node', (0.6, 0.4), root_shape(base) + ':mirrored'))
+        for t2, what in reroots(base, nn, both_orders=True, trifurcations=True):
+            shape = root_shape(t2)
+            if len(t2) == 3:
+                ts.append(('kbl', nn, base, t2, what, (1.0, 1.0), shape))
+                continue
+            for split, longer in (((0.4, 0.6), 'second root branch longer'), ((0.6, 0.4), 'first root branch longer'),
+                                  ((0.0, 1.0), 'first root branch of length zero')):
+                if split == (0.0, 1.0) and quick and 'other order' in what:
+                    continue
+                ts.append(('kbl', nn, base, t2, f'{what}, {longer}', split, f'{shape}:{longer.split(" ")[0]}-{"zero" if 0.0 in split else "longer"}'))
     return ts
 
 
 def body(chk):
-    chk.explanation = ('two-run relational symbolic execution of the real model construction (Alignment, SitePattern compression, '
-                       'parse_tree / setup_indexes, TreeLikelihoodModel) on pairs of equivalent JSON specifications sharing one symbol '
-                       'per branch / clade; equality of the two log-likelihood expressions is decided for all parameter values')
+    chk.explanation = ('multi-run relational symbolic execution of the real model construction (Alignment, SitePattern compression, '
+                       'data-type tables, parse_tree / setup_indexes, TreeLikelihoodModel, plain and rescaled kernels) on equivalent '
+                       'JSON specifications sharing one symbol per branch / clade; equality of the log-likelihood expressions is '
+                       'decided for all parameter values.  Specifications differ in list / child / column order, column merging, '
+                       'tip states vs tip partials, spelling of the symbols (soft-masked, RNA, ambiguity codes, unknown characters; '
+                       'nucleotide, amino-acid and general data types) against an independent symbol table, the evaluation path '
+                       '(rescale flag on both / one side), objects shared by id between two likelihoods with different flags vs '
+                       'inline stand-alone specifications, and the root position / root shape / split of the root branch with '
+                       'keep_branch_lengths')
     chk.total.assumptions |= {'substitution_model.p_t is an uninterpreted row-stochastic matrix function (any model); root placement uses '
                               'the closed-form JC69 with exp uninterpreted + ground axioms; general reversible models (pulley principle '
                               'with detailed balance) are outside the claim',
                               'sequences are pairwise distinct so that a positional mix-up changes the expression',
-                              'polytomy resolution beyond the enumerated binary Newick strings is outside the claim'}
+                              'polytomy resolution beyond the enumerated binary Newick strings and a trifurcation at the root '
+                              '(keep_branch_lengths) is outside the claim',
+                              'rescaled paths: per-node per-site scalers and log arguments are positive (the divisions are hoisted out '
+                              'of the log arguments: log(N/D) = log N - log D); the claim covers the region of the witness(es) = '
+                              'which entry is the maximum, no coverage certificate over all regions (C03 (a) enumerates regions); '
+                              'the safe kernel entered after an underflow belongs to C03',
+                              'which states a written symbol stands for: IUPAC nucleotide / amino-acid tables of chk/c01_k3_harness.py, '
+                              'for GeneralDataType the codes / ambiguities of its JSON; characters with code point >= 128 are outside',
+                              'the 20-state runs use GeneralJC69 as carrier object: its p_t is the uninterpreted row-stochastic function '
+                              'and its frequencies are symbols (replay: real GeneralJC69.p_t); one rate category',
+                              'TreeLikelihoodModel has no include_jacobian option (it belongs to the tree transforms / the CLI): the '
+                              'flags varied between likelihoods sharing objects are use_ambiguities, use_tip_states and rescale'}
     chk.total.bounds['sizes'] = 'n in {3,4}; 5-column alignment with IUPAC codes, a gap and a repeated column; Weibull(2) site model'
+    chk.total.bounds['alphabets'] = ('nucleotide: 8 columns with A C G T a c g t u U R y k - N ? x n . * 9 and a repeated column; '
+                                     'amino acid (20 states, n = 3, unrooted): 8 columns with upper / lower case, B z X b * ? - J o U u '
+                                     '. 1 !; general data type a b c d with aliases e -> a, f -> [b], all-state code x, unknown '
+                                     'symbols ? - A B . ; the same with a two-state code r; quick: n = 3, thorough: n = 4 as well')
+    chk.total.bounds['evaluation paths'] = ('rescale flag set before the first evaluation on both sides and on one side, weights > 1 '
+                                            'present (repeated column); quick: every rewrite for n = 3, one representative per kind of '
+                                            'rewrite for n = 4 (tip states vs partials: all three combinations; n = 3: two witness '
+                                            'points), merging for tip partials and tip states; thorough: every rewrite, n = 3, 4')
+    chk.total.bounds['sharing'] = ('two likelihoods over one document, styles flat / nested / own SitePattern over a shared Alignment, '
+                                   'flag pairs (use_ambiguities, use_tip_states, rescale), both construction orders, time and unrooted '
+                                   'trees; quick: n = 3, evaluated in construction order; thorough: n = 3, 4, both evaluation orders')
+    chk.total.bounds['keep_branch_lengths'] = ('n = 3, 4: root on every branch in both child orders = root shapes (clade,clade), '
+                                               '(leaf,clade), (clade,leaf); root branch split 40:60, 60:40 and 0:100; root '
+                                               'trifurcation at every internal node in three child orders; children swapped at every '
+                                               'node; JC69, one rate category')
     pmap(run_task, tasks_for(chk.tier), chk.total)
 
 
